@@ -57,6 +57,7 @@ type c12World struct {
 	shape        string
 	prevL1       []bridgesync.Bridge
 	prevL2       []bridgesync.Bridge
+	early        func(info, dep int) // when set: a request made while the L1 bridge syncer is one block behind
 }
 
 // c12L1Snap: the L1 side of the world at an L1 block boundary (what an L1 reorg goes back to).
@@ -165,6 +166,21 @@ func (w *c12World) addInfo() {
 
 func (w *c12World) flushL1() error {
 	w.l1Num++
+	if w.early != nil && len(w.pendingL1Br) > 0 {
+		// the L1 info syncer is ahead of the L1 bridge syncer for a moment, and a client already asks for a claim proof
+		// against the newest L1 info leaf (whose mainnet exit root the bridge syncer has not recorded yet); whatever the
+		// answer, the requests made once both have the block must be served correctly
+		if err := w.si.VerifProcessBlock(bg, aggkitsync.Block{Num: w.l1Num, Hash: common.BigToHash(big.NewInt(int64(w.l1Num) + 100)), Events: w.pendingL1}); err != nil {
+			return err
+		}
+		w.early(len(w.infos)-1, len(w.mainLeaves)-1)
+		if err := w.s1.VerifProcessBlock(bg, aggkitsync.Block{Num: w.l1Num, Hash: common.BigToHash(big.NewInt(int64(w.l1Num) + 100)), Events: w.pendingL1Br}); err != nil {
+			return err
+		}
+		w.pendingL1, w.pendingL1Br, w.pos = nil, nil, 0
+		w.shape += "!|"
+		return nil
+	}
 	if err := w.s1.VerifProcessBlock(bg, aggkitsync.Block{Num: w.l1Num, Hash: common.BigToHash(big.NewInt(int64(w.l1Num) + 100)), Events: w.pendingL1Br}); err != nil {
 		return err
 	}
@@ -316,6 +332,15 @@ func c12Prop(rt *rapid.T, rec *ev.Recorder) {
 		fatal(rt, "INCONCLUSIVE: world: %v", err)
 	}
 	defer w.close()
+	svc := bridgeservice.New(&bridgeservice.Config{Logger: log.WithFields("module", "c12"), Address: "127.0.0.1:0", ReadTimeout: 5 * time.Second, WriteTimeout: 5 * time.Second, NetworkID: jNetID},
+		w.si, w.sg, w.s1, w.s2)
+	if rapid.IntRange(0, 2).Draw(rt, "requestsWhileTheBridgeSyncerIsBehind") == 0 {
+		w.early = func(info, dep int) {
+			if info >= 0 && dep >= 0 {
+				_, _ = c12Get(svc.ClaimProofHandler, fmt.Sprintf("/claim-proof?network_id=0&leaf_index=%d&deposit_count=%d", info, dep))
+			}
+		}
+	}
 	// a third of the worlds see an L1 reorg after the first round of requests: the SAME service instance must then answer
 	// for the new fork (the L2 side is not reorged; no L1 info leaf of the stretch that will be dropped is injected on L2)
 	planReorg := rapid.IntRange(0, 2).Draw(rt, "l1ReorgAfterFirstRequests") == 0
@@ -332,8 +357,6 @@ func c12Prop(rt *rapid.T, rec *ev.Recorder) {
 	if err != nil {
 		fatal(rt, "INCONCLUSIVE: a store refused a valid block: %v", err)
 	}
-	svc := bridgeservice.New(&bridgeservice.Config{Logger: log.WithFields("module", "c12"), Address: "127.0.0.1:0", ReadTimeout: 5 * time.Second, WriteTimeout: 5 * time.Second, NetworkID: jNetID},
-		w.si, w.sg, w.s1, w.s2)
 	nt := false
 	proofs := 0
 	type pair struct{ dep, info int }
